@@ -202,6 +202,11 @@ func startModules() error {
 			// wait for reports
 			rep = <-reports
 			if rep.err != nil {
+				// wait for the modules that are still starting, so that
+				// they are in a defined state when the caller shuts down
+				for reportCnt++; reportCnt < execCnt; reportCnt++ {
+					<-reports
+				}
 				rep.module.NewErrorMessage("start module", rep.err).Report()
 				return fmt.Errorf("modules: could not start module %s: %w", rep.module.Name, rep.err)
 			}
